@@ -2,6 +2,7 @@ package htsim
 
 import (
 	"context"
+	stdtls "crypto/tls"
 	"encoding/hex"
 	"encoding/json"
 	"fmt"
@@ -204,6 +205,7 @@ type World struct {
 	Start    time.Time
 	step     int
 	eps      []*simnet.Endpoint // per actor (tcp)
+	tls      map[int]*tlsLeg    // actors that upgraded their connection ("starttls" op)
 	progress func(string)
 	// StepCheck is called after every step (invariants); a non-empty string aborts the run.
 	StepCheck func(w *World) string
@@ -215,6 +217,16 @@ type World struct {
 	SendHook func(actor int, seg []byte) bool
 	// Custom executes engine-specific op kinds (emit, frame, ...)
 	Custom func(w *World, actor int, op Op)
+}
+
+// tlsLeg: the client side of a connection after an in-band TLS upgrade (SMTP STARTTLS, FTP AUTH TLS): a library
+// TLS client over the simulated endpoint; a reader goroutine collects what the server sends as plaintext.
+type tlsLeg struct {
+	c    *stdtls.Conn
+	mu   sync.Mutex
+	recv []byte
+	err  string // handshake error ("" = completed)
+	done bool
 }
 
 var dataDir string // per-process data dir (badger opened once, outside any bubble)
@@ -575,7 +587,13 @@ func (w *World) microStep(i int, c *cursor) {
 		}
 		switch kind {
 		case "tcp":
-			if ep := w.eps[i]; ep != nil {
+			if leg := w.tls[i]; leg != nil {
+				// one segment = one TLS record: the service's reads see the same boundaries as with plaintext
+				if leg.done && leg.err == "" {
+					leg.c.Write(seg)
+				}
+				co.Sent += len(seg)
+			} else if ep := w.eps[i]; ep != nil {
 				ep.PeerInject(seg)
 				co.Sent += len(seg)
 			}
@@ -604,8 +622,42 @@ func (w *World) microStep(i int, c *cursor) {
 				c.op = nx
 			}
 		}
-	case "close":
+	case "starttls":
+		// the protocol's own upgrade command has been answered in an earlier step; from here on the client speaks TLS
 		if ep := w.eps[i]; ep != nil {
+			if w.tls == nil {
+				w.tls = map[int]*tlsLeg{}
+			}
+			leg := &tlsLeg{c: stdtls.Client(ep, &stdtls.Config{InsecureSkipVerify: true, MaxVersion: stdtls.VersionTLS12})}
+			w.tls[i] = leg
+			go func() {
+				err := leg.c.Handshake()
+				leg.mu.Lock()
+				leg.done = true
+				if err != nil {
+					leg.err = err.Error()
+				}
+				leg.mu.Unlock()
+				if err != nil {
+					return
+				}
+				buf := make([]byte, 8192)
+				for {
+					n, err := leg.c.Read(buf)
+					leg.mu.Lock()
+					leg.recv = append(leg.recv, buf[:n]...)
+					leg.mu.Unlock()
+					if err != nil {
+						return
+					}
+				}
+			}()
+		}
+		w.tracef("a%d starttls", i)
+	case "close":
+		if leg := w.tls[i]; leg != nil {
+			leg.c.Close()
+		} else if ep := w.eps[i]; ep != nil {
 			ep.Close()
 		}
 		co.EndMs = w.nowMs()
@@ -663,7 +715,18 @@ func (w *World) collect() {
 			if ep == nil {
 				continue
 			}
-			if b := ep.Take(); len(b) > 0 {
+			var b []byte
+			if leg := w.tls[i]; leg != nil {
+				leg.mu.Lock()
+				b, leg.recv = leg.recv, nil
+				if leg.done && leg.err != "" && w.Obs.Extra["tls-handshake-error"] == nil {
+					w.Obs.Extra["tls-handshake-error"] = fmt.Sprintf("actor %d: %s", i, leg.err)
+				}
+				leg.mu.Unlock()
+			} else {
+				b = ep.Take()
+			}
+			if len(b) > 0 {
 				co.Recv = append(co.Recv, b...)
 				co.Chunks = append(co.Chunks, Chunk{Step: w.step, Data: b})
 				w.tracef("a%d recv", i) // (no length: replies may quote host paths of varying length)
